@@ -367,3 +367,260 @@ def c01_cases(tier, seed):
                           prompt=rng.choice(["> ", "", "日> "]), binds=binds,
                           printer=rng.random() < 0.2, meta={}))
     return cases
+
+
+# ---------------------------------------------------------------- feature-biased generators
+
+def rand_text(rng, lo, hi, alphabet=None):
+    a = alphabet or TEXT
+    return "".join(rng.choice(a) for _ in range(rng.randint(lo, hi)))
+
+
+def mk_initial(rng, p=0.25, alphabet=None):
+    if rng.random() >= p:
+        return None
+    t = rand_text(rng, 1, 8, alphabet)
+    k = rng.randint(0, len(t))
+    return (t[:k], t[k:])
+
+
+def c13_cases(tier, seed):
+    """validator: scripted verdict table (## error, !! invalid+msg, ?? invalid, trailing \\ incomplete,
+    ok valid+msg) and the shipped bracket validator; Enter / C-j / C-m anywhere in the line"""
+    rng = random.Random(seed * 307 + 5)
+    n = 4000 if tier == "thorough" else 260
+    frag = ["a", "b", " ", "!!", "??", "##", "\\", "ok", "(", ")", "[", "]", "{", "}", "é", "日", "x", "!", "?", "#"]
+    cases = []
+    for _ in range(n):
+        mode = rng.choice(["emacs", "emacs", "vi"])
+        vk = rng.choice(["script", "script", "brackets"])
+        keys = []
+        for _ in range(rng.randint(2, 14)):
+            r = rng.random()
+            if r < 0.55:
+                keys += list(rng.choice(frag))
+            elif r < 0.75:
+                keys.append(rng.choice(["Enter", "C-j", "C-m", "Enter"]))
+            elif r < 0.9:
+                keys.append(rng.choice(["Left", "Home", "Backspace", "C-a", "End", "Right", "Up"] if mode == "emacs"
+                                       else ["Left", "Home", "Backspace", "End", "Right"]))
+            else:
+                keys.append(rng.choice(["C-_", "C-k", "C-u"]) if mode == "emacs" else "Backspace")
+        keys.append("Enter")
+        reads = rng.choice([1, 1, 2])
+        if reads == 2:
+            keys += list(rand_text(rng, 0, 4, ["a", "(", ")", "!"])) + ["Enter"]
+        hints = ["ok then"] if rng.random() < 0.2 else None
+        cases.append(Case(keys, mode=mode, validator=vk, reads=reads, hints=hints, initial=mk_initial(rng, 0.15, frag[:8]),
+                          timeout=0 if mode == "vi" else "none", prompt=rng.choice(["> ", ""]),
+                          cols=rng.choice([80, 80, 20])))
+    return cases
+
+
+CAND_POOL = ["foo", "foobar", "foo bar", "fo", "f", "food", "é", "éa", "日本", "ba", "bar", "baz", "", "x y", "abc", "abd"]
+
+
+def c14_cases(tier, seed):
+    rng = random.Random(seed * 401 + 9)
+    n = 4000 if tier == "thorough" else 260
+    cases = []
+    for _ in range(n):
+        mode = rng.choice(["emacs", "emacs", "vi"])
+        ct = rng.choice(["circular", "circular", "list"])
+        cands = rng.sample(CAND_POOL, rng.choice([0, 1, 2, 3, 4, 5]))
+        if rng.random() < 0.08:
+            cands = ["c%02d" % i for i in range(rng.choice([101, 105]))]     # above the prompt limit
+        keys = []
+        for _ in range(rng.randint(2, 12)):
+            r = rng.random()
+            if r < 0.35:
+                keys.append(rng.choice(["f", "o", "b", "a", " ", "é", "x", "日"]))
+            elif r < 0.65:
+                keys.append(rng.choice(["Tab", "Tab", "Tab", "BackTab", "C-i"]))
+            elif r < 0.75:
+                keys.append(rng.choice(["Esc", "C-g"]) if mode == "emacs" else rng.choice(["C-g", "Esc"]))
+            elif r < 0.85:
+                keys.append(rng.choice(["C-_", "Left", "Home", "C-a", "Backspace", "C-w"]) if mode == "emacs"
+                            else rng.choice(["Left", "Backspace", "Home"]))
+            elif r < 0.92:
+                keys.append(rng.choice(["y", "n", " ", "q"]))
+            else:
+                keys.append(rng.choice(["M-2", "M--"]) if mode == "emacs" else "Right")
+                if mode == "emacs":
+                    keys.append("Tab")
+        keys.append("Enter")
+        cases.append(Case(keys, mode=mode, completion=ct, cands=cands, initial=mk_initial(rng, 0.3, ["f", "o", " ", "b", "a", "é"]),
+                          timeout=0 if mode == "vi" else rng.choice(["none", 0]), prompt=rng.choice(["> ", "日> "]),
+                          cols=rng.choice([80, 80, 30])))
+    return cases
+
+
+def c08_cases(tier, seed):
+    rng = random.Random(seed * 503 + 3)
+    n = 4000 if tier == "thorough" else 260
+    pool = ["abc", "xabcx", "ab", "b", "é日", "日é日", "a b,c", "foo(bar)", "ab\ncd", "zzz", "abab", "(x)", "ABC", " lead", "x"]
+    cases = []
+    for _ in range(n):
+        mode = rng.choice(["emacs", "emacs", "emacs", "vi"])
+        hist = [rng.choice(pool) for _ in range(rng.choice([0, 1, 2, 3, 4, 6]))]
+        keys = list(rand_text(rng, 0, 3, ["a", "b", "q"]))
+        for _ in range(rng.randint(1, 4)):
+            keys.append(rng.choice(["C-r", "C-r", "C-s"]))
+            for _ in range(rng.randint(0, 8)):
+                r = rng.random()
+                if r < 0.45:
+                    keys.append(rng.choice(["a", "b", "c", "x", "é", "日", "(", " ", "z", ","]))
+                elif r < 0.70:
+                    keys.append(rng.choice(["C-r", "C-r", "C-s"]))
+                elif r < 0.82:
+                    keys.append(rng.choice(["Backspace", "C-h"]))
+                elif r < 0.90:
+                    keys.append(rng.choice(["C-g", "Esc"]))
+                    break
+                else:
+                    keys.append(rng.choice(["Left", "C-a", "C-k", "Up", "C-_", "M-b", "C-e", "Down", "C-t", "Tab", "F5"]))
+                    break
+            keys += list(rand_text(rng, 0, 2, ["a", "Z"]))
+            if rng.random() < 0.3:
+                keys.append(rng.choice(["C-_", "C-_", "Up", "Down"]))
+        keys.append("Enter")
+        cases.append(Case(keys, mode=mode, history=hist, initial=mk_initial(rng, 0.3, ["a", "b", " ", "é"]),
+                          timeout=0 if mode == "vi" else rng.choice(["none", 0]), prompt=rng.choice(["> ", ""]),
+                          cols=rng.choice([80, 80, 24])))
+    return cases
+
+
+def c07_cases(tier, seed):
+    rng = random.Random(seed * 601 + 11)
+    n = 4000 if tier == "thorough" else 260
+    pool = ["one", "two words", "é日", "a b,c", "l1\nl2\nl3", "x", "ab\ncd", "  lead", "tail\n", "\nhead", "w" * 30, "q"]
+    cases = []
+    for _ in range(n):
+        mode = rng.choice(["emacs", "emacs", "vi"])
+        hist = [rng.choice(pool) for _ in range(rng.choice([0, 1, 2, 3, 5]))]
+        keys = []
+        insert = True
+        for _ in range(rng.randint(3, 22)):
+            r = rng.random()
+            if mode == "emacs":
+                if r < 0.5:
+                    keys.append(rng.choice(EMACS_HIST + ["Up", "Down", "Up", "Down"]))
+                elif r < 0.7:
+                    keys.append(rng.choice(TEXT[:8]))
+                elif r < 0.8:
+                    keys += ["C-v", "C-j"]
+                elif r < 0.9:
+                    keys.append(rng.choice(["C-a", "C-e", "Left", "Right", "C-k", "Backspace", "C-_", "M-b"]))
+                else:
+                    keys += ["M-" + rng.choice("23"), rng.choice(["Up", "Down", "C-p", "C-n"])]
+            else:
+                if insert:
+                    if r < 0.4:
+                        keys.append(rng.choice(TEXT[:8]))
+                    elif r < 0.55:
+                        keys.append(rng.choice(["Up", "Down"]))
+                    elif r < 0.65:
+                        keys += ["C-v", "C-j"]
+                    else:
+                        keys.append("Esc")
+                        insert = False
+                else:
+                    if r < 0.6:
+                        keys += ([rng.choice("23")] if rng.random() < 0.25 else []) + [rng.choice(["j", "k", "+", "-", "C-p", "C-n", "Up", "Down"])]
+                    elif r < 0.75:
+                        keys.append(rng.choice(["h", "l", "0", "$", "x", "u", "w"]))
+                    else:
+                        keys.append(rng.choice(["i", "a", "A"]))
+                        insert = True
+        keys.append("Enter")
+        cases.append(Case(keys, mode=mode, history=hist, initial=mk_initial(rng, 0.3, ["a", "b", "\n", "é", " "]),
+                          timeout=0 if mode == "vi" else rng.choice(["none", 0]), prompt=rng.choice(["> ", "", "日> "]),
+                          cols=rng.choice([80, 80, 12])))
+    return cases
+
+
+def c05_cases(tier, seed):
+    """undo-biased scripts: C-_ / C-x C-u / vi u at every kind of position, with counts; searches and
+    completions started and aborted or accepted in between"""
+    rng = random.Random(seed * 701 + 13)
+    n = 4000 if tier == "thorough" else 260
+    cases = []
+    for _ in range(n):
+        mode = rng.choice(["emacs", "emacs", "vi"])
+        hist = [rng.choice(HIST_POOL) for _ in range(rng.choice([0, 1, 2, 3]))]
+        cands = rng.sample(CAND_POOL, rng.choice([0, 2, 3])) or None
+        ln = rng.randint(5, 30)
+        base = gen_emacs(rng, ln, bool(hist), extra=("Tab", "C-r", "C-g", "Esc")) if mode == "emacs" else gen_vi(rng, ln, bool(hist))
+        keys = []
+        for k in base:
+            keys.append(k)
+            if rng.random() < 0.22:
+                if mode == "emacs":
+                    keys += rng.choice([["C-_"], ["C-_"], ["C-x", "C-u"], ["M-2", "C-_"], ["C-_", "C-_"]])
+                else:
+                    keys += rng.choice([["Esc", "u"], ["Esc", "u", "u"], ["Esc", "2", "u"], ["Esc", "u", "i"]])
+        keys += ["C-_"] * rng.randint(0, 6) if mode == "emacs" else ["Esc"] + ["u"] * rng.randint(0, 6)
+        keys.append("Enter")
+        cases.append(Case(keys, mode=mode, history=hist, cands=cands, initial=mk_initial(rng, 0.3),
+                          completion=rng.choice(["circular", "list"]),
+                          timeout=0 if mode == "vi" else rng.choice(["none", 0]), prompt="> "))
+    return cases
+
+
+def c06_cases(tier, seed):
+    rng = random.Random(seed * 809 + 7)
+    n = 4000 if tier == "thorough" else 260
+    cases = []
+    EK = ["C-k", "C-u", "C-w", "M-d", "M-Backspace", "C-k", "C-w"]
+    for _ in range(n):
+        mode = rng.choice(["emacs", "emacs", "emacs", "vi"])
+        keys = list(rand_text(rng, 3, 14, ["a", "b", " ", " ", ",", "é", "日", "x", "(", "_"]))
+        insert = True
+        for _ in range(rng.randint(4, 24)):
+            r = rng.random()
+            if mode == "emacs":
+                if r < 0.35:
+                    keys.append(rng.choice(EK))
+                elif r < 0.5:
+                    keys += rng.choice([["C-y"], ["C-y", "M-y"], ["C-y", "M-y", "M-y"], ["M-y"], ["M-2", "C-y"], ["M-3", "C-y", "M-y"]])
+                elif r < 0.6:
+                    keys.append(rng.choice(["C-d", "Backspace", "C-h", "Delete"]))
+                elif r < 0.75:
+                    keys.append(rng.choice(EMACS_MOVES))
+                elif r < 0.9:
+                    keys.append(rng.choice(["a", "b", " ", ",", "é"]))
+                else:
+                    keys += [rng.choice(["M-2", "M--", "M-3"]), rng.choice(EK)]
+            else:
+                if insert:
+                    if r < 0.4:
+                        keys.append(rng.choice(["a", " ", ",", "é"]))
+                    elif r < 0.6:
+                        keys.append(rng.choice(["C-w", "C-u", "C-k", "C-y"]))
+                    else:
+                        keys.append("Esc")
+                        insert = False
+                else:
+                    if r < 0.4:
+                        op = rng.choice(["d", "d", "c", "y"])
+                        keys += ([rng.choice("23")] if rng.random() < 0.2 else []) + [op, rng.choice(["w", "b", "e", "$", "0", "h", "l", op, "W", "B", "^"])]
+                        insert = op == "c"
+                    elif r < 0.6:
+                        keys.append(rng.choice(["p", "P", "p", "P", "x", "X", "D"]))
+                    elif r < 0.8:
+                        keys.append(rng.choice(["h", "l", "w", "b", "0", "$"]))
+                    else:
+                        keys.append(rng.choice(["i", "a", "C"]))
+                        insert = True
+        keys.append("Enter")
+        reads = rng.choice([1, 1, 2])
+        if reads == 2:
+            keys += rng.choice([["C-y"], ["C-y", "M-y"], ["a", "C-k", "C-y"]]) + ["Enter"] if mode == "emacs" else ["Esc", "p", "Enter"]
+        binds = [("F5", "yankpop")] if rng.random() < 0.15 and mode == "emacs" else []
+        cases.append(Case(keys, mode=mode, reads=reads, binds=binds, initial=mk_initial(rng, 0.2),
+                          timeout=0 if mode == "vi" else rng.choice(["none", 0]), prompt="> "))
+    return cases
+
+
+STREAMS = {"keys": c01_cases, "validate": c13_cases, "complete": c14_cases, "isearch": c08_cases,
+           "recall": c07_cases, "undo": c05_cases, "kill": c06_cases}
